@@ -6,6 +6,7 @@ import (
 	"context"
 	"math/rand"
 	"reflect"
+	"runtime/debug"
 	"sync"
 	"sync/atomic"
 	"time"
@@ -474,8 +475,8 @@ type RecvCase[T any] struct {
 
 func NewRecv[T any](ch <-chan T) *RecvCase[T] { return &RecvCase[T]{ch: ch} }
 
-func (c *RecvCase[T]) key() uintptr  { return chanKey(c.ch) }
-func (c *RecvCase[T]) isSend() bool  { return false }
+func (c *RecvCase[T]) key() uintptr       { return chanKey(c.ch) }
+func (c *RecvCase[T]) isSend() bool       { return false }
 func (c *RecvCase[T]) value() interface{} { return nil }
 func (c *RecvCase[T]) deliver(v interface{}) {
 	if v != nil {
@@ -766,4 +767,225 @@ func Close[T any](ch chan<- T) {
 		s.cs(chanKey(ch)).closed = true
 	}
 	close(ch)
+}
+
+// ---------------------------------------------------------------------------
+// Timers, tickers, AfterFunc (time.NewTimer / time.NewTicker / time.AfterFunc)
+
+// Timer mirrors time.Timer on the virtual clock (pass-through: wraps the native one).
+type Timer struct {
+	C  <-chan time.Time
+	c  chan time.Time
+	vt *vtimer
+	f  func()
+	rt *time.Timer
+}
+
+func (t *Timer) arm(s *Sched, d time.Duration) {
+	t.vt = s.addTimer(d, func() {
+		if t.f != nil {
+			th := s.newThread("afterfunc", true)
+			go s.runThread(th, t.f)
+			return
+		}
+		select {
+		case t.c <- base.Add(s.now):
+		default:
+		}
+	})
+}
+
+func NewTimer(d time.Duration) *Timer {
+	s := cur()
+	if s == nil {
+		rt := time.NewTimer(d)
+		return &Timer{C: rt.C, rt: rt}
+	}
+	s.checkAbort()
+	t := &Timer{c: make(chan time.Time, 1)}
+	t.C = t.c
+	t.arm(s, d)
+	return t
+}
+
+func AfterFunc(d time.Duration, f func()) *Timer {
+	s := cur()
+	if s == nil {
+		fn := f
+		if h := panicHook.Load(); h != nil {
+			fn = func() {
+				defer func() {
+					if r := recover(); r != nil {
+						(*h)(r, debug.Stack())
+					}
+				}()
+				f()
+			}
+		}
+		return &Timer{rt: time.AfterFunc(d, fn)}
+	}
+	s.checkAbort()
+	t := &Timer{f: f}
+	t.arm(s, d)
+	return t
+}
+
+func (t *Timer) Stop() bool {
+	if t.rt != nil {
+		return t.rt.Stop()
+	}
+	if t.vt == nil {
+		panic("time: Stop called on uninitialized Timer")
+	}
+	was := !t.vt.dead
+	t.vt.dead = true
+	return was
+}
+
+func (t *Timer) Reset(d time.Duration) bool {
+	if t.rt != nil {
+		return t.rt.Reset(d)
+	}
+	if t.vt == nil {
+		panic("time: Reset called on uninitialized Timer")
+	}
+	was := !t.vt.dead
+	t.vt.dead = true
+	s := cur()
+	if s == nil {
+		return was
+	}
+	// Go 1.23 semantics: no stale value is delivered after Reset
+	if t.c != nil {
+		select {
+		case <-t.c:
+		default:
+		}
+	}
+	t.arm(s, d)
+	return was
+}
+
+// Ticker mirrors time.Ticker on the virtual clock.
+type Ticker struct {
+	C   <-chan time.Time
+	c   chan time.Time
+	gen int
+	d   time.Duration
+	rt  *time.Ticker
+}
+
+func (t *Ticker) arm(s *Sched) {
+	gen := t.gen
+	var again func()
+	again = func() {
+		s.addTimer(t.d, func() {
+			if t.gen != gen {
+				return
+			}
+			select {
+			case t.c <- base.Add(s.now):
+			default:
+			}
+			again()
+		})
+	}
+	again()
+}
+
+func NewTicker(d time.Duration) *Ticker {
+	if d <= 0 {
+		panic("non-positive interval for NewTicker")
+	}
+	s := cur()
+	if s == nil {
+		rt := time.NewTicker(d)
+		return &Ticker{C: rt.C, rt: rt}
+	}
+	s.checkAbort()
+	t := &Ticker{c: make(chan time.Time, 1), d: d}
+	t.C = t.c
+	t.arm(s)
+	return t
+}
+
+func (t *Ticker) Stop() {
+	if t.rt != nil {
+		t.rt.Stop()
+		return
+	}
+	t.gen++
+}
+
+func (t *Ticker) Reset(d time.Duration) {
+	if d <= 0 {
+		panic("non-positive interval for Ticker.Reset")
+	}
+	if t.rt != nil {
+		t.rt.Reset(d)
+		return
+	}
+	t.gen++
+	t.d = d
+	if s := cur(); s != nil {
+		t.arm(s)
+	}
+}
+
+// ---------------------------------------------------------------------------
+// Condition variables
+
+type Cond struct {
+	L sync.Locker
+
+	once    sync.Once
+	native  *sync.Cond
+	waiters []*condWaiter
+}
+
+type condWaiter struct{ signaled bool }
+
+func NewCond(l sync.Locker) *Cond { return &Cond{L: l} }
+
+func (c *Cond) nat() *sync.Cond {
+	c.once.Do(func() { c.native = sync.NewCond(c.L) })
+	return c.native
+}
+
+func (c *Cond) Wait() {
+	s := cur()
+	if s == nil {
+		c.nat().Wait()
+		return
+	}
+	s.checkAbort()
+	w := &condWaiter{}
+	c.waiters = append(c.waiters, w)
+	c.L.Unlock()
+	s.block("cond-wait", func() bool { return w.signaled })
+	c.L.Lock()
+}
+
+func (c *Cond) Signal() {
+	s := cur()
+	if s == nil {
+		c.nat().Signal()
+		return
+	}
+	if len(c.waiters) > 0 {
+		c.waiters[0].signaled = true
+		c.waiters = c.waiters[1:]
+	}
+}
+
+func (c *Cond) Broadcast() {
+	s := cur()
+	if s == nil {
+		c.nat().Broadcast()
+		return
+	}
+	for _, w := range c.waiters {
+		w.signaled = true
+	}
+	c.waiters = nil
 }
